@@ -44,13 +44,16 @@ CmdFaults  == {"exit_before_write", "exit_after_partial", "exit_after_all", "sig
 
 PortId(n, port) == n \o "." \o port
 SeqPorts(n, s)  == {PortId(n, s[i]) : i \in DOMAIN s}
-InPortsTab    == [n \in PNames |-> IF IsCmd(n) THEN SeqPorts(n, PR(n).ins) ELSE {}]
-IsRelay(n)    == PR(n).kind = "pcomb"     \* ParamCombinator with one port: collects its whole input, then emits it
-ParamPortsTab == [n \in PNames |-> IF IsCmd(n) \/ IsRelay(n) THEN SeqPorts(n, PR(n).params) ELSE {}]
+IsRelay(n)    == PR(n).kind \in {"pcomb", "maptotags"}
+     \* "pcomb": ParamCombinator with one port - collects its whole input, then emits it;
+     \* "maptotags": pass-through component - forwards every item as it arrives (ports in / out)
+IsPass(n)     == PR(n).kind = "maptotags"
+InPortsTab    == [n \in PNames |-> IF IsCmd(n) THEN SeqPorts(n, PR(n).ins) ELSE IF IsPass(n) THEN {PortId(n, "in")} ELSE {}]
+ParamPortsTab == [n \in PNames |-> IF IsCmd(n) \/ PR(n).kind = "pcomb" THEN SeqPorts(n, PR(n).params) ELSE {}]
 FileOutsTab   == [n \in PNames |-> IF IsCmd(n) THEN SeqPorts(n, PR(n).outs)
-                                   ELSE IF PR(n).kind = "src" THEN {PortId(n, "out")} ELSE {}]
+                                   ELSE IF PR(n).kind = "src" \/ IsPass(n) THEN {PortId(n, "out")} ELSE {}]
 ParamOutsTab  == [n \in PNames |-> IF PR(n).kind = "psrc" THEN {PortId(n, "out")}
-                                   ELSE IF IsRelay(n) THEN {PortId(n, PR(n).params[i]) \o ">" : i \in DOMAIN PR(n).params} ELSE {}]
+                                   ELSE IF PR(n).kind = "pcomb" THEN {PortId(n, PR(n).params[i]) \o ">" : i \in DOMAIN PR(n).params} ELSE {}]
 InPortsOf(n)    == InPortsTab[n]
 ParamPortsOf(n) == ParamPortsTab[n]
 FileOutsOf(n)   == FileOutsTab[n]
@@ -108,7 +111,8 @@ EmIds     == Emitters \cup FeedIds
 EmItemsTab == [e \in EmIds |-> IF e \in FeedIds THEN FeedOf(e).values
                                ELSE IF PR(e).kind = "src" THEN PR(e).items ELSE PR(e).values]
 EmOutTab   == [e \in EmIds |-> IF e \in FeedIds THEN FeedOut(FeedOf(e))
-                               ELSE IF IsRelay(e) THEN PortId(e, PR(e).params[1]) \o ">" ELSE PortId(e, "out")]
+                               ELSE IF PR(e).kind = "pcomb" THEN PortId(e, PR(e).params[1]) \o ">" ELSE PortId(e, "out")]
+RelayIn(e) == IF IsPass(e) THEN PortId(e, "in") ELSE PortId(e, PR(e).params[1])
 EmRemotesTab == [e \in EmIds |-> IF e \in FeedIds THEN {FeedOf(e).to} ELSE RemotesOf(EmOutTab[e])]
 EmOut(e)   == EmOutTab[e]
 EmRemotes(e) == EmRemotesTab[e]
@@ -139,7 +143,7 @@ ExpIns(n, k)    == [i \in DOMAIN PR(n).ins    |-> InStream(PortId(n, PR(n).ins[i
 ExpParams(n, k) == [i \in DOMAIN PR(n).params |-> InStream(PortId(n, PR(n).params[i]))[k]]
 OutStream(op) ==
   LET n == Owner(op) IN
-  IF IsRelay(n) THEN InStream(PortId(n, PR(n).params[1]))
+  IF IsRelay(n) THEN InStream(RelayIn(n))
   ELSE IF ~IsCmd(n) THEN (IF PR(n).kind = "src" THEN PR(n).items ELSE PR(n).values)
   ELSE LET port == CHOOSE o \in ToSet(PR(n).outs) : PortId(n, o) = op
        IN  [k \in 1..NSets(n) |-> OutItem(n, port, ExpIns(n, k), ExpParams(n, k))]
@@ -205,7 +209,7 @@ Init ==
   /\ phase = IF WiringFails THEN "failed" ELSE "init"
   /\ q = [port \in AllInPorts |-> <<>>]
   /\ ups = [port \in AllInPorts |-> InitUps(port)]
-  /\ em = [e \in EmIds |-> [i |-> 1, left |-> EmRemotes(e), wait |-> "", st |-> IF e \in Relays THEN "collect" ELSE "run"]]
+  /\ em = [e \in EmIds |-> [i |-> 1, left |-> EmRemotes(e), wait |-> "", st |-> IF e \in Relays THEN "collect" ELSE "run", eof |-> FALSE]]
   /\ relayed = [e \in Relays |-> <<>>]
   /\ rpc = [n \in CmdRun |-> "idle"]
   /\ ctpc = [n \in CmdRun |-> "off"]
@@ -268,21 +272,24 @@ EmSendDone(e, r) ==     \* acceptor mode only
 
 \* a relay (one-port ParamCombinator) receives until its port is closed, then starts emitting
 RelayRecv(e, i) ==
-  /\ Running /\ e \in Relays /\ em[e].st = "collect"
-  /\ LET port == PortId(e, PR(e).params[1]) IN
+  /\ Running /\ e \in Relays
+  /\ \/ em[e].st = "collect"
+     \/ IsPass(e) /\ em[e].st = "run" /\ em[e].wait = "" /\ em[e].i > Len(relayed[e]) /\ ~em[e].eof   \* item forwarded: next receive
+  /\ LET port == RelayIn(e) IN
      \/ /\ i > 0 /\ Receivable(port, i)
         /\ q' = [q EXCEPT ![port] = DropAt(@, i)]
         /\ recvd' = [recvd EXCEPT ![port] = Append(@, q[port][i])]
         /\ relayed' = [relayed EXCEPT ![e] = Append(@, q[port][i][2])]
-        /\ em' = em
+        /\ em' = IF IsPass(e) THEN [em EXCEPT ![e].st = "run"] ELSE em
      \/ /\ i = 0 /\ PortClosed(port)
-        /\ em' = [em EXCEPT ![e].st = "run"]
+        /\ em' = [em EXCEPT ![e].st = "run", ![e].eof = TRUE]
         /\ UNCHANGED <<q, recvd, relayed>>
   /\ UNCHANGED <<phase, ups, rpc, ctpc, ctleft, ctgot, ctopen, offer, tasksnil, tk, ts, started, sout, cl,
                  tokens, final, failed, execs, emitted>>
 
 EmFinish(e) ==          \* all items sent: deferred CloseAllOutPorts / pop.Close
   /\ Active(e) /\ em[e].st = "run" /\ em[e].wait = "" /\ em[e].i > Len(EmItems(e))
+  /\ e \in Relays => em[e].eof
   /\ em' = [em EXCEPT ![e].st = "closing"]
   /\ cl' = [cl EXCEPT ![e] = {<<EmOut(e), r>> : r \in EmRemotes(e)}]
   /\ UNCHANGED <<phase, q, ups, relayed, rpc, ctpc, ctleft, ctgot, ctopen, offer, tasksnil, tk, ts, started, sout,
@@ -555,7 +562,7 @@ Next ==
   \/ StartProcs
   \/ \E e \in EmIds : \/ \E r \in AllInPorts : EmSendBegin(e, r) \/ EmSendDone(e, r)
                       \/ EmFinish(e)
-  \/ \E e \in Relays : \E i \in 0..Len(q[PortId(e, PR(e).params[1])]) : RelayRecv(e, i)
+  \/ \E e \in Relays : \E i \in 0..Len(q[RelayIn(e)]) : RelayRecv(e, i)
   \/ \E x \in EmIds \cup CmdRun : \E op \in AllOuts, r \in AllInPorts : CloseConn(x, op, r)
   \/ \E n \in CmdRun :
         \/ ProcStart(n) \/ CTOffer(n) \/ TakeTask(n) \/ CTEnd(n) \/ TasksClosed(n)
